@@ -120,6 +120,14 @@ def random_instance(rng, cls, small=False):
         meta["allow_empty"] = True
     if cls == "kMinPathError" and wt == "int" and rng.random() < 0.15:
         kw["path_length_ranges"] = [[0, 3], [4, 50]]; kw["path_length_factors"] = [1.0, 0.5]
+    if cls in ("MinFlowDecomp", "MinFlowDecompCycles") and rng.random() < 0.35:
+        # the non-default search helpers of the minimising classes: the decomposition found by the guessed-weights helper model is
+        # handed out as the solution (its routes have to be routes of the caller's graph like any other), lower bounds move the search
+        oo2 = dict(kw.get("optimization_options") or {})
+        oo2.update(rng.choice([{"optimize_with_guessed_weights": True}, {"optimize_with_guessed_weights": True}, {"use_min_gen_set_lowerbound": True},
+                               {"optimize_with_guessed_weights": True, "use_min_gen_set_lowerbound": True}]
+                              + ([{"use_subgraph_scanning_lowerbound": True}] if cls == "MinFlowDecomp" else [{"optimize_with_guessed_weights": True, "add_min_gen_set_to_given_weights": True, "use_min_gen_set_lowerbound": True}])))
+        kw["optimization_options"] = oo2
     if cover:
         spec = gen.spec(base["nodes"], base["edges"], eattr=lens)
     else:
